@@ -270,7 +270,9 @@ def _w12(ctx):
     ctx.add('W12', 'T-WHO', ctx.fn1(r'^memory::ToFree::delete$'), okd, 'retired objects are deleted only by try_freeing (all tokens announced) or by a destructor (exclusive access)' if okd else
             'ToFree::delete is reached from %s' % sorted(short_fn(c) for c in owners if not allowed_del(c)), sub='delete')
     # (3) direct deallocation of published classes
-    allowed_de = lambda f_: bool(re.search(r'ReadCursor::(add_stream|remove_reader)$|as std::ops::Drop>::drop$|ToFree::new::do_free$', f_))
+    from rules_extra2 import freer_fn
+    freer = freer_fn(ctx)
+    allowed_de = lambda f_: f_ == freer or bool(re.search(r'ReadCursor::(add_stream|remove_reader)$|as std::ops::Drop>::drop$', f_))
     for name, f in F.fns.items():
         for b in f['blocks']:
             if b['cleanup']:
